@@ -80,23 +80,36 @@ Proof.
   - destruct oc; intros H; inversion H; [reflexivity|]. rewrite rt_h3_fresh_tls. reflexivity.
 Qed.
 
-Lemma rt_h2_dial_tls e c : c_tls (snd (rt_h2_dial e c)) = c_tls c.
+Lemma rt_h2_dial_client e c : snd (rt_h2_dial e c) = c \/ snd (rt_h2_dial e c) = with_t2 true c.
 Proof.
   unfold rt_h2_dial.
   repeat match goal with
          | |- context [if ?b then _ else _] => destruct b
          | |- context [match ?x with _ => _ end] => destruct x
-         end; reflexivity.
+         end; cbn [snd]; auto.
 Qed.
 
-Lemma rt_conn_tls e c : c_tls (snd (rt_conn e c)) = c_tls c.
+(* the state a connection-path request leaves: unchanged, an h2 connection pooled (by the http2 transport's own
+   dial, or by the hand-off, which also leaves the alt entry in the idle list), or an idle HTTP/1 connection *)
+Lemma rt_conn_client e c :
+  snd (rt_conn e c) = c \/ snd (rt_conn e c) = with_t2 true c \/
+  snd (rt_conn e c) = with_alti true (with_t2 true c) \/
+  snd (rt_conn e c) = with_idle (c_idle c) true c \/ snd (rt_conn e c) = with_idle true (c_idle1 c) c.
 Proof.
   unfold rt_conn.
+  destruct (negb match c_force c with FH1 => true | _ => false end && e_https e && c_alti c).
+  { destruct (c_t2 c); [auto|]. destruct (rt_h2_dial_client e c) as [H|H]; rewrite H; auto. }
   repeat match goal with
          | |- context [if ?b then _ else _] => destruct b
          | |- context [match ?x with _ => _ end] => destruct x
-         end; reflexivity.
+         end; cbn [snd]; auto 6.
 Qed.
+
+Lemma rt_h2_dial_tls e c : c_tls (snd (rt_h2_dial e c)) = c_tls c.
+Proof. destruct (rt_h2_dial_client e c) as [H|H]; rewrite H; reflexivity. Qed.
+
+Lemma rt_conn_tls e c : c_tls (snd (rt_conn e c)) = c_tls c.
+Proof. destruct (rt_conn_client e c) as [H|[H|[H|[H|H]]]]; rewrite H; reflexivity. Qed.
 
 Lemma check_altsvc_tls e c r : check_altsvc e c = Some r -> c_tls (snd r) = c_tls c.
 Proof.
@@ -148,7 +161,8 @@ Proof.
     destruct (round_trip_gen g e c) as [[o ds] c1]; cbn [snd];
     destruct o as [[| |]| |]; try (right; left; reflexivity);
     try (right; right; right; reflexivity);
-    (destruct ds; [right; right; left; reflexivity | destruct (own_h2_conn e c1); right; left; reflexivity]).
+    (destruct ds as [|d ds]; [right; right; left; reflexivity|]);
+    (destruct (d_stack d); [destruct (own_h2_conn e c1); right; left; reflexivity | |]; right; right; left; reflexivity).
 Qed.
 
 Lemma clear_idle_tls c : c_tls (clear_idle c) = c_tls c.
@@ -327,6 +341,8 @@ Lemma rt_conn_sound e c : req_sound e c (rt_conn e c).
 Proof.
   unfold rt_conn, req_sound.
   set (oh := match c_force c with FH1 => true | _ => false end).
+  destruct (negb oh && e_https e && c_alti c).
+  { destruct (c_t2 c); [constructor | exact (rt_h2_dial_sound e c)]. }
   destruct (if oh then c_idle1 c else c_idle c); [constructor|].
   destruct (negb (e_https e)); [constructor|].
   destruct (c_plain_dialtls c); [constructor|].
@@ -472,26 +488,54 @@ Proof.
   destruct p as [x|]; cbn; [|discriminate]. intros H. apply bytes_eqb_eq in H. congruence.
 Qed.
 
-(* the connection path: HTTP/1.1; HTTP/2 only when not restricted to h1 and the server selected h2; clear text
-   only through a plain DialTLSContext *)
+Lemma rt_h2_dial_v2 e c :
+  outcome_of (rt_h2_dial e c) = Use V2 ->
+  c_t2 c = true \/ (if e_https e then mem_bytes alpn_h2 (s_alpn (e_srv e)) = true else s_h2c (e_srv e) = true).
+Proof.
+  unfold rt_h2_dial, outcome_of.
+  destruct (negb (e_https e || c_allow_http c)); [discriminate|].
+  destruct (c_t2 c) eqn:T; [left; reflexivity|]. right.
+  destruct (negb (e_https e) && h2_plain_dial_for_http) eqn:PL.
+  { destruct (e_https e); [discriminate|]. destruct (s_h2c (e_srv e)); [reflexivity | discriminate]. }
+  destruct (c_plain_dialtls c).
+  { destruct (e_https e); cbn [negb andb] in *; [discriminate|].
+    destruct (s_h2c (e_srv e)); [reflexivity | discriminate]. }
+  destruct (e_https e); cbn [negb] in *; [|discriminate].
+  destruct (handshake (s_alpn (e_srv e)) (tcp_cfg S2 false (e_host e) c) (e_srv e)) as [p|er] eqn:Hh; [|discriminate].
+  destruct (opt_bytes_eqb p (Some alpn_h2)) eqn:Q; [|destruct (c_udial c); discriminate].
+  apply opt_bytes_eqb_some in Q. subst p. eapply handshake_ok_mem; eauto.
+Qed.
+
+(* the connection path: HTTP/1.1; HTTP/2 only when not restricted to h1 and the server selected h2 (now, or when
+   the cached connection was made); clear text only through a plain DialTLSContext *)
 Lemma rt_conn_outcome e c :
   match outcome_of (rt_conn e c) with
   | Use V1 => True
-  | Use V2 => c_force c <> FH1 /\ e_https e = true /\ mem_bytes alpn_h2 (s_alpn (e_srv e)) = true
+  | Use V2 => c_force c <> FH1 /\ e_https e = true /\
+              (mem_bytes alpn_h2 (s_alpn (e_srv e)) = true \/ c_t2 c = true)
   | Use V3 => False
   | Cleartext => c_plain_dialtls c = true /\ e_https e = true
   | Fail _ => e_https e = true
   end.
 Proof.
-  unfold rt_conn, outcome_of.
+  unfold rt_conn.
   set (oh := match c_force c with FH1 => true | _ => false end).
+  assert (NF : oh = false -> c_force c <> FH1) by (subst oh; destruct (c_force c); congruence).
+  destruct (negb oh && e_https e && c_alti c) eqn:AL.
+  { apply andb_prop in AL. destruct AL as [AL _]. apply andb_prop in AL. destruct AL as [O Hs].
+    assert (O' : oh = false) by (destruct oh; [discriminate | reflexivity]).
+    destruct (c_t2 c) eqn:T; [cbn; auto|].
+    pose proof (rt_h2_dial_v2 e c) as V. pose proof (rt_h2_dial_outcome e c) as [X|[er X]]; rewrite X.
+    - specialize (V X). rewrite T, Hs in V. destruct V as [V|V]; [discriminate|]. auto.
+    - exact Hs. }
+  unfold outcome_of.
   destruct (if oh then c_idle1 c else c_idle c); [exact I|].
   destruct (e_https e); cbn [negb]; [|exact I].
   destruct (c_plain_dialtls c); [split; reflexivity|].
   destruct (handshake (s_alpn (e_srv e)) (tcp_cfg S1 oh (e_host e) c) (e_srv e)) as [p|er] eqn:H; cbn [fst]; [|reflexivity].
   destruct (opt_bytes_eqb p (Some alpn_h2)) eqn:Q; [|exact I].
   destruct oh eqn:O; cbn [fst]; [reflexivity|].
-  split; [subst oh; destruct (c_force c); congruence|]. split; [reflexivity|].
+  split; [auto|]. split; [reflexivity|]. left.
   apply opt_bytes_eqb_some in Q. subst p. eapply handshake_ok_mem; eauto.
 Qed.
 
@@ -600,18 +644,24 @@ Proof.
 Qed.
 
 Lemma rt_conn_t3 e c : c_t3 (snd (rt_conn e c)) = c_t3 c.
-Proof.
-  unfold rt_conn.
-  repeat match goal with
-         | |- context [if ?b then _ else _] => destruct b
-         | |- context [match ?x with _ => _ end] => destruct x
-         end; reflexivity.
-Qed.
+Proof. destruct (rt_conn_client e c) as [H|[H|[H|[H|H]]]]; rewrite H; reflexivity. Qed.
 
 Lemma rt_conn_t2 e c :
   c_t2 (snd (rt_conn e c)) = c_t2 c \/ (outcome_of (rt_conn e c) = Use V2 /\ c_t2 (snd (rt_conn e c)) = true).
 Proof.
-  unfold rt_conn, outcome_of.
+  unfold rt_conn.
+  destruct (negb match c_force c with FH1 => true | _ => false end && e_https e && c_alti c).
+  { destruct (c_t2 c) eqn:T; [left; cbn; auto|].
+    pose proof (rt_h2_dial_outcome e c) as [X|[er X]].
+    - destruct (rt_h2_dial_client e c) as [H|H]; rewrite H; [left; exact T | right; split; [exact X | reflexivity]].
+    - assert (K : snd (rt_h2_dial e c) = c).
+      { revert X. unfold rt_h2_dial, outcome_of.
+        repeat match goal with
+               | |- context [if ?b then _ else _] => destruct b
+               | |- context [match ?x with _ => _ end] => destruct x
+               end; cbn; intros X; try discriminate; reflexivity. }
+      left. rewrite K. exact T. }
+  unfold outcome_of.
   repeat match goal with
          | |- context [if ?b then _ else _] => destruct b
          | |- context [match ?x with _ => _ end] => destruct x
@@ -622,7 +672,9 @@ Lemma rt_conn_inv e c : inv3 e c -> inv2 e c -> inv3 e (snd (rt_conn e c)) /\ in
 Proof.
   unfold inv3, inv2. intros I3 I2. rewrite rt_conn_t3. split; [exact I3|].
   destruct (rt_conn_t2 e c) as [H|[Ho H]]; [rewrite H; exact I2|].
-  intros _. pose proof (rt_conn_outcome e c) as O. rewrite Ho in O. destruct O as (_ & Hs & M). rewrite Hs. exact M.
+  intros _. pose proof (rt_conn_outcome e c) as O. rewrite Ho in O. destruct O as (_ & Hs & [M|T]).
+  - rewrite Hs. exact M.
+  - rewrite Hs in *. exact (I2 T).
 Qed.
 
 Lemma with_alt_inv e a b c : (inv3 e c /\ inv2 e c) -> inv3 e (with_alt a b c) /\ inv2 e (with_alt a b c).
@@ -768,7 +820,8 @@ Proof.
     destruct (rt_h3_v3_needs_listener _ _ _ _ E H) as [K|K]; [apply I3, K | exact K]. }
   assert (HC : match outcome_of (rt_conn e c) with Use V1 => True | Use V2 => mem_bytes alpn_h2 (s_alpn (e_srv e)) = true
             | Use V3 => s_h3 (e_srv e) = true | Cleartext => c_plain_dialtls c = true | Fail _ => True end).
-  { pose proof (rt_conn_outcome e c) as O. destruct (outcome_of (rt_conn e c)) as [[| |]| |]; try exact I; tauto. }
+  { pose proof (rt_conn_outcome e c) as O. destruct (outcome_of (rt_conn e c)) as [[| |]| |]; try exact I; try tauto.
+    destruct O as (_ & _ & [M|T]); [exact M|]. unfold inv2 in I2. rewrite Hs in I2. exact (I2 T). }
   destruct (check_altsvc e c) as [r|] eqn:A.
   - unfold check_altsvc in A. destruct (negb (c_h3 c)); [discriminate|].
     destruct (c_alt c) as [|[|]|]; try discriminate.
@@ -813,7 +866,7 @@ Proof.
   assert (H3 : forall oc r, rt_h3 oc e c = Some r -> exists er, outcome_of r = Fail er).
   { intros oc r. unfold rt_h3. rewrite Hs. cbn. intros H; inversion H. eexists; reflexivity. }
   assert (HC : outcome_of (rt_conn e c) = Use V1).
-  { unfold rt_conn, outcome_of. rewrite Hs. cbn [negb].
+  { unfold rt_conn, outcome_of. rewrite Hs. rewrite andb_false_r. cbn [negb andb].
     destruct (if match c_force c with FH1 => true | _ => false end then c_idle1 c else c_idle c); reflexivity. }
   destruct (if true && negb match c_force c with FNone => true | _ => false end then None else check_altsvc e c) as [r|] eqn:A.
   - destruct (true && negb match c_force c with FNone => true | _ => false end); [discriminate|].
@@ -892,31 +945,11 @@ Proof.
   - destruct oc; intros H; inversion H; [reflexivity|]. rewrite rt_h3_fresh_plain. reflexivity.
 Qed.
 
-Lemma rt_h2_dial_client e c : snd (rt_h2_dial e c) = c \/ snd (rt_h2_dial e c) = with_t2 true c.
-Proof.
-  unfold rt_h2_dial.
-  repeat match goal with
-         | |- context [if ?b then _ else _] => destruct b
-         | |- context [match ?x with _ => _ end] => destruct x
-         end; cbn [snd]; auto.
-Qed.
-
 Lemma rt_h2_dial_plain e c : c_plain_dialtls (snd (rt_h2_dial e c)) = c_plain_dialtls c.
 Proof. destruct (rt_h2_dial_client e c) as [H|H]; rewrite H; reflexivity. Qed.
 
-Lemma rt_conn_client e c :
-  snd (rt_conn e c) = c \/ snd (rt_conn e c) = with_t2 true c \/
-  snd (rt_conn e c) = with_idle (c_idle c) true c \/ snd (rt_conn e c) = with_idle true (c_idle1 c) c.
-Proof.
-  unfold rt_conn.
-  repeat match goal with
-         | |- context [if ?b then _ else _] => destruct b
-         | |- context [match ?x with _ => _ end] => destruct x
-         end; cbn [snd]; auto.
-Qed.
-
 Lemma rt_conn_plain e c : c_plain_dialtls (snd (rt_conn e c)) = c_plain_dialtls c.
-Proof. destruct (rt_conn_client e c) as [H|[H|[H|H]]]; rewrite H; reflexivity. Qed.
+Proof. destruct (rt_conn_client e c) as [H|[H|[H|[H|H]]]]; rewrite H; reflexivity. Qed.
 
 Lemma check_altsvc_plain_dialtls e c r : check_altsvc e c = Some r -> c_plain_dialtls (snd r) = c_plain_dialtls c.
 Proof.
@@ -1084,11 +1117,14 @@ Proof.
 Qed.
 
 Lemma rt_conn_dials e c :
-  e_https e = true -> c_plain_dialtls c = false -> c_idle c = false -> c_idle1 c = false ->
+  e_https e = true -> c_plain_dialtls c = false -> c_idle c = false -> c_idle1 c = false -> c_t2 c = false ->
   dials_or_fails (rt_conn e c).
 Proof.
-  intros Hs Hp Hi Hi1. unfold rt_conn. rewrite Hs, Hp, Hi, Hi1. cbn [negb].
+  intros Hs Hp Hi Hi1 H2. unfold rt_conn.
   set (oh := match c_force c with FH1 => true | _ => false end).
+  destruct (negb oh && e_https e && c_alti c).
+  { rewrite H2. apply rt_h2_dial_dials; assumption. }
+  rewrite Hs, Hp, Hi, Hi1. cbn [negb].
   replace (if oh then false else false) with false by (destruct oh; reflexivity).
   destruct (handshake (s_alpn (e_srv e)) (tcp_cfg S1 oh (e_host e) c) (e_srv e)) as [p|er].
   - destruct (opt_bytes_eqb p (Some alpn_h2)); [destruct oh|]; (split; [discriminate | left; discriminate]).
@@ -1307,11 +1343,13 @@ Proof.
   intros Hf. pose proof (forced_round_trip e c v Hf) as R. unfold round_trip_close, outcome_of in *.
   destruct (c_force c) eqn:F; cbn in Hf; inversion Hf; subst.
   - destruct (round_trip_gen true e c) as [[o ds] c1]. cbn [fst] in R.
-    destruct o as [[| |]| |]; try discriminate; cbn [fst]; try exact R; destruct ds; exact R.
+    destruct o as [[| |]| |]; try discriminate; cbn [fst]; try exact R; destruct ds as [|d ds]; try exact R;
+      destruct (d_stack d); try exact R; discriminate.
   - pose proof (own_h2_conn_outcome e c) as O. destruct (own_h2_conn e c) as [o ds]. cbn [fst] in *.
     destruct O as [->|[er ->]]; [reflexivity | exact I].
   - destruct (round_trip_gen true e c) as [[o ds] c1]. cbn [fst] in R.
-    destruct o as [[| |]| |]; try discriminate; cbn [fst]; try exact R; destruct ds; exact R.
+    destruct o as [[| |]| |]; try discriminate; cbn [fst]; try exact R; destruct ds as [|d ds]; try exact R;
+      destruct (d_stack d); try exact R; discriminate.
 Qed.
 
 Lemma forced_close_version_or_fail e c v :
@@ -1335,7 +1373,8 @@ Proof.
          destruct O as [->|[er ->]]; discriminate);
     destruct (round_trip_gen g e c) as [[o ds] c1]; cbn [fst] in R;
     destruct o as [[| |]| |]; cbn [fst]; try discriminate; try exact R;
-    (destruct ds; [discriminate|]);
+    (destruct ds as [|d ds]; [discriminate|]);
+    (destruct (d_stack d); try discriminate);
     pose proof (own_h2_conn_outcome e c1) as O; destruct (own_h2_conn e c1) as [o2 ds2]; cbn [fst] in *;
     destruct O as [->|[er ->]]; discriminate.
 Qed.
